@@ -224,6 +224,18 @@ class ObjV(Val):
         return f"ObjV({self.cls or self.tag})"
 
 
+class CondSeq(Val):
+    """A python list built by a comprehension over concrete items with filters that are not decided: item k is present
+    only when conds[k] holds.  Only a `for` loop knows how to consume it (the body runs under the item's condition)."""
+
+    def __init__(self, items, conds):
+        self.items = list(items)
+        self.conds = list(conds)
+
+    def __repr__(self):
+        return f"CondSeq({len(self.items)} conditional items)"
+
+
 class ModV(Val):
     def __init__(self, name):
         self.name = name
